@@ -274,10 +274,16 @@ def foreign_saturation(ev):
     out = []
     for site in ev.atoms.clip_sites:
         kind, _x, stack, node = site
+        stack = real_stack(stack)
         if stack and stack[-1] == "save_exp":
             continue
         out.append((kind, stack, node))
     return out
+
+
+def real_stack(stack):
+    """the call stack without the frames of local helper functions (a local helper of f runs as part of f)"""
+    return tuple(f_ for f_ in stack if not str(f_).startswith("<local>."))
 
 
 def subst_var(ev, r: Rat, var: str, val: Rat) -> Rat:
